@@ -461,6 +461,34 @@ def dispatch(R, P):
         for el in b.elems:
             if el["k"] == "bin" and el["op"] in ("+=", "=") and f.show(f.d(el["a"][0])) == "output->len":
                 exprs.add((el["op"], f.show(f.d(el["a"][1]))))
+    if f is not None and exprs != {("+=", "encoded_length")}:
+        # equally good on the portable path: the length becomes the write cursor itself - a local initialised from
+        # output->len that is only ever advanced as the subscript of a store into the output (`buffer[idx++] = c`), so the
+        # length reported is exactly one past the last character written
+        def is_write_cursor(name):
+            inits, others = [], []
+            for b in f.blocks.values():
+                for el in b.elems:
+                    for x in f.walk(el):
+                        if x["k"] == "decl":
+                            inits += [f.show(RU.uncast(f, v["init"])) for v in x["vars"] if v["n"] == name and v.get("init") is not None]
+                        elif x["k"] == "bin" and x["op"] in ("=", "+=", "-=") and (f.d(x["a"][0]) or {}).get("k") == "var" and f.d(x["a"][0])["n"] == name:
+                            others.append(x)
+                        elif x["k"] == "un" and x["op"] in ("pre++", "pre--", "post--", "addr") and (f.d(x["a"][0]) or {}).get("k") == "var" and f.d(x["a"][0])["n"] == name:
+                            others.append(x)
+            incs = [x for b in f.blocks.values() for el in b.elems for x in f.walk(el) if x["k"] == "un" and x["op"] == "post++" and (f.d(x["a"][0]) or {}).get("k") == "var" and f.d(x["a"][0])["n"] == name]
+            in_store = 0
+            for b in f.blocks.values():
+                for el in b.elems:
+                    for x in f.walk(el):
+                        if x["k"] == "bin" and x["op"] == "=":
+                            l_ = RU.uncast(f, x["a"][0])
+                            if l_ is not None and l_["k"] == "index" and "output->buffer" in f.show(l_["a"][0]) and any(y in incs for y in [RU.uncast(f, l_["a"][1])]):
+                                in_store += 1
+            return inits == ["output->len"] and not others and incs and in_store == len(incs)
+        rest = {e_ for e_ in exprs if e_ != ("+=", "encoded_length")}
+        if ("+=", "encoded_length") in exprs and all(op == "=" and is_write_cursor(v) for op, v in rest):
+            exprs = {("+=", "encoded_length")}
     R.check(exprs == {("+=", "encoded_length")} and len(adds) == 2, "DISPATCH", "aws_base64_encode:same-length-both-paths", "aws_base64_encode()", "both paths add encoded_length to output->len",
             "the two CPU paths of aws_base64_encode update output->len differently: %s" % sorted(exprs))
     d = P.fn("aws_base64_decode")
@@ -847,12 +875,14 @@ def chunk(R, P):
                         if used and not (x["k"] == "bin" and x["op"] == "=" and f.is_const(x["a"][1]) == 0):
                             incs.append((b.id, x, l["n"]))
     reads = [e for e in f.field_accesses(rec="aws_utf8_decoder", field="remaining", modes=("r", "rw"))]
-    ok = bool(incs) and len(real) == 1
+    # the byte loop: the (outermost) loop in which the byte index advances - there is exactly one such loop; loops nested in
+    # its body (a table walk that classifies the byte) belong to the per-byte step
+    byte_loops = {max(((h, bd) for h, bd in real.items() if blk in bd), key=lambda hb: len(hb[1]), default=(None, None))[0] for blk, x, nm in incs}
+    ok = bool(incs) and len(byte_loops) == 1 and None not in byte_loops
+    hdr = list(byte_loops)[0] if ok else None
     for blk, x, nm in incs:
-        body = [bd for h, bd in real.items() if blk in bd]
-        ok = ok and bool(body) and any(e.blk in body[0] for e in reads)
+        ok = ok and hdr is not None and any(e.blk in real[hdr] for e in reads)
     # the read of remaining happens on every path through the body before anything else branches on the byte
-    hdr = list(real)[0] if len(real) == 1 else None
     if hdr is not None:
         first = [e for e in reads if all(True for _ in [0])]
         dom = dominators(f)
